@@ -174,12 +174,13 @@ def config_lookup(repo, problems):
     for a in lookup_calls(b2, 'read_file'):
         parts = [x.strip() for x in a.split(',')]
         names.append(consts.get(parts[-1], parts[-1]))
-    # every lookup is an arm of one `if let Some(file) = … ? { Ok(Some(file)) } else …` chain: the first hit is returned
+    # every lookup binds its result as `Some(file)` (an `if let` or a `match` arm) and hands it on as `Ok(Some(file))`
+    # (as the value of the chain or by an early return): the first hit is what the function returns
     for nm, b, n in (('read_default_config_file', b1, len(dirs)), ('read_files', b2, len(names))):
-        hits = sum(1 for s in range(len(b) - 7) if b[s:s + 8] == ['Ok', '(', 'Some', '(', 'file', ')', ')', '}'])
-        iflets = sum(1 for s in range(len(b) - 5) if b[s:s + 6] == ['if', 'let', 'Some', '(', 'file', ')'])
-        if hits != n or iflets != n:
-            problems.append(f'file.rs: {nm}: {n} lookups but {iflets} `if let Some(file)` / {hits} `Ok(Some(file))` arms')
+        hits = sum(1 for s in range(len(b) - 6) if b[s:s + 7] == ['Ok', '(', 'Some', '(', 'file', ')', ')'])
+        binds = sum(1 for s in range(len(b) - 4) if b[s:s + 4] == ['Some', '(', 'file', ')'] and b[s + 4] in ('=', '=>'))
+        if hits != n or binds != n:
+            problems.append(f'file.rs: {nm}: {n} lookups but {binds} `Some(file)` bindings / {hits} `Ok(Some(file))` results')
     return dirs, names
 
 
